@@ -185,12 +185,18 @@ Proof.
     unfold merged. rewrite Er. simpl. rewrite app_nil_r. split; [exact Hg | intros e H; discriminate].
   - (* LoadShellEnv *)
     rewrite app_nil_r. destruct HG as [HL HI HC].
-    destruct (remerge_good S c J ONone HS HL HI) as [d1 [Er1 Hg1]]. rewrite Er1.
+    assert (HL0 : Forall (level_ok S) (lower (set_env c (Node [])))).
+    { assert (Henv : level_ok S (Node [])).
+      { split; [reflexivity|]. split; [reflexivity | apply conforms_empty; exact HS]. }
+      unfold lower in *. lower_inv HL. destruct c; simpl in *.
+      repeat (first [assumption | apply Forall_cons | apply Forall_nil]). }
+    assert (HI0 : inv S (c_mods (set_env c (Node []))) (c_dels (set_env c (Node []))) J) by (destruct c; exact HI).
+    destruct (remerge_good S (set_env c (Node [])) J ONone HS HL0 HI0) as [d1 [Er1 Hg1]]. rewrite Er1.
     destruct (good_cache_conforms S _ J HS Hg1) as [Wc1 Cc1].
-    destruct (EnvModel.load (Node (c_cache (set_cache c d1))) (c_env_prefix (set_cache c d1)) env) as [dd|e] eqn:El.
+    destruct (EnvModel.load (Node (c_cache (set_cache (set_env c (Node [])) d1))) (c_env_prefix (set_cache (set_env c (Node [])) d1)) env) as [dd|e] eqn:El.
     + destruct (C06_envfacts.load_level_ok S _ _ _ dd HS Wc1 Cc1 El) as [Wdd Cdd].
       destruct Hg1 as [HLa HIa HCa].
-      destruct (remerge_good S (set_env (set_cache c d1) (Node dd)) J ONone HS) as [d2 [Er2 Hg2]].
+      destruct (remerge_good S (set_env (set_cache (set_env c (Node [])) d1) (Node dd)) J ONone HS) as [d2 [Er2 Hg2]].
       * unfold lower in *. lower_inv HLa. destruct c; simpl in *.
         repeat (constructor; try assumption).
       * destruct c; exact HIa.
